@@ -86,6 +86,15 @@ func main() {
 	if *prop == "all" {
 		os.Exit(runAll(*repo))
 	}
+	if *prop == "probe-getters" {
+		c, err := Load(*repo, nil, "")
+		if err != nil {
+			fmt.Fprintln(os.Stderr, err)
+			os.Exit(2)
+		}
+		probeGetters(c)
+		os.Exit(0)
+	}
 	if *prop == "probe-siblings" {
 		c, err := Load(*repo, nil, "")
 		if err != nil {
